@@ -85,7 +85,7 @@ Dev_F10b(start, u) == u.st = "done" /\ BeforeStart(start, u)
 
 \* ------------------------------------------------------------------ C10
 FieldByName(dp, cls, name) ==
-    LET fs == dp[cls].fields IN fs[CHOOSE j \in 1..Len(fs) : fs[j].name = name]
+    LET fs == dp[cls].fields IN fs[CHOOSE j \in 1..Len(fs) : ListedName(fs[j]) = name]
 
 \* every described field ends, on output, at the same position relative to the start of the
 \* data as it did on input (generic code: both event lists are complete)
